@@ -156,7 +156,7 @@ func genStream(r *Rng, prop, phase string, knob bool, pEarly, pErr float64) []*S
 	return []*Scenario{s}
 }
 
-var stdReaders = []string{"bytes.Buffer", "bytes.Buffer", "bytes.Reader", "strings.Reader", "bufio.Reader", "bufio.Reader"}
+var stdReaders = []string{"bytes.Buffer", "bytes.Buffer", "bytes.Reader", "strings.Reader", "bufio.Reader", "bufio.Reader", "section-advanced", "bytes.Reader-advanced", "os.File"}
 
 var scribbleKinds = []string{"garbage", "newline", "nul", "data"}
 
@@ -418,6 +418,7 @@ func genWalkScn(r *Rng, nblocks int) *WalkScn {
 	ws.PostNil = !ws.PreNil && r.Chance(0.08)
 	ws.Reentrant = r.Chance(0.15)
 	ws.SameOpts = ws.Reentrant && r.Chance(0.5)
+	ws.Warm = r.Chance(0.3)
 	n := r.Range(0, 120)
 	p0 := []float64{0, 0.02, 0.1, 0.3, 0.5}[r.Intn(5)]
 	var sb strings.Builder
@@ -829,6 +830,9 @@ func evaluate(s *Scenario, st *runStats) (fail *Failure) {
 			st.Faults["reentrant_walk"] += obs.NestedWalks
 			if s.Walk.PreNil {
 				st.Probes["pre_nil"]++
+			}
+			if obs.Warmed {
+				st.Probes["options_value_had_served_an_earlier_complete_walk"]++
 			}
 			if s.Walk.PostNil {
 				st.Probes["post_nil"]++
